@@ -21,6 +21,16 @@
 (*               normal close when its effect is observed first: the hook runs   *)
 (*               after close(), so the woken Shutdown may report its return      *)
 (*               before serve.chanclosed is logged (`early' remembers it)        *)
+(*   TFire/TFirePC (DeadlinesMayFire) the instant a read deadline names has      *)
+(*               come: right before the read that reports the timeout            *)
+(*                                                                            *)
+(* Calls and time (environment, nothing of the server's state changes):          *)
+(*   shutdown.call  v = 1: the caller uses Shutdown(), the entry without a       *)
+(*               context (`plain'): no ctx.expire can follow, so its wait ends   *)
+(*               through ShWake only -- a return with any other result, or       *)
+(*               before the drain, has no step (PlainShutdownWaits)              *)
+(*   time.elapse the harness let v milliseconds of wall time pass (more than     *)
+(*               every timeout the server is configured with or defaults to)     *)
 (*                                                                            *)
 (* Properties that are not enforced by guards (the specification itself admits   *)
 (* the restart-during-shutdown behaviour) are evaluated on every state of the    *)
@@ -31,9 +41,9 @@ EXTENDS Server, TraceBase
 CONSTANT Loose     \* TRUE for runs on a real UDP socket: no fakenet, so reads, deadline moves and the close of
                    \* the packet conn are not reported and are taken silently wherever the specification allows
 
-VARIABLES l, viol, ctxExp, fin, early, badCall
+VARIABLES l, viol, ctxExp, fin, early, badCall, plain
 
-tvars == <<l, viol, ctxExp, fin, early, badCall>>
+tvars == <<l, viol, ctxExp, fin, early, badCall, plain>>
 
 Ev == Trace[l]
 Is(name) == Ev.ev = name
@@ -134,7 +144,9 @@ EventStep ==
   \/ Is("w.start")        /\ Ev.c \in C /\ WStart(Ev.c)
   \/ Is("w.isstarted")    /\ Ev.c \in C /\ (Ev.v = 1) = started /\ WLoop(Ev.c)
   \/ Is("conn.setdl")     /\ Ev.c \in C /\
-        CASE Ev.res = "past"   -> Ev.h \in H /\ ShKick(Ev.h, Ev.c)
+        CASE Ev.res = "past"   -> \/ Ev.h \in H /\ ShKick(Ev.h, Ev.c)
+                                  \* time: the reader's own (short) deadline had come before the call that sets it got through
+                                  \/ DeadlinesMayFire /\ Ev.h = 0 /\ wpc[Ev.c] = "rdl" /\ started /\ Free /\ Same
           [] Ev.res = "future" -> Ev.h = 0 /\ wpc[Ev.c] = "rdl" /\ started /\ Free /\ Same   \* only `if srv.started'
           [] OTHER -> FALSE
   \/ Is("read.dl")        /\ (Ev.v = 1) = started /\
@@ -157,7 +169,8 @@ EventStep ==
   \/ Is("lsn.close")      /\ IF Ev.h # 0 THEN Ev.h \in H /\ lsnField = Ev.l /\ ShCloseL(Ev.h)
                              ELSE Ev.p \in P /\ slsn[Ev.p] = Ev.l /\ TransportClosedByServe(Ev.p)
   \/ Is("pc.setdl")       /\
-        CASE Ev.res = "past"   -> Ev.h \in H /\ ShKickPC(Ev.h)
+        CASE Ev.res = "past"   -> \/ Ev.h \in H /\ ShKickPC(Ev.h)
+                                  \/ DeadlinesMayFire /\ Ev.h = 0 /\ Ev.p \in P /\ spc[Ev.p] = "rdl" /\ started /\ Free /\ Same
           [] Ev.res = "future" -> Ev.p \in P /\ spc[Ev.p] = "rdl" /\ started /\ Free /\ Same
           [] OTHER -> FALSE
   \/ Is("pc.read")        /\ Ev.p \in P /\
@@ -180,7 +193,7 @@ Silent ==
                   /\ ShCapture(h)
   \/ /\ (Is("shutdown.returned") /\ ~HasPC) \/ (Is("pc.close") /\ HasPC)
      /\ Ev.h \in H
-     /\ ShWake(Ev.h) \/ (Ev.h \in ctxExp /\ ShCtx(Ev.h))
+     /\ ShWake(Ev.h) \/ (Ev.h \in ctxExp /\ Ev.h \notin plain /\ ShCtx(Ev.h))
   \/ \E p \in P : /\ Mode = "pc" /\ spc[p] = "got"
                   /\ ((Is("s.isstarted") \/ Is("pc.read") \/ Is("read.dl")) /\ Ev.p = p) \/ (Is("handler.enter") /\ Ev.k = scur[p])
                   /\ USpawn(p)
@@ -192,46 +205,55 @@ Silent ==
         \/ Is("s.isstarted") /\ Ev.p \in P /\ UReadErr(Ev.p)                       \* a failed read shows in the re-check
         \/ (Is("shutdown.unlock") \/ Is("lsn.close")) /\ Ev.h \in H /\ ShKickPC(Ev.h)  \* the deadline move, lock held
         \/ Is("shutdown.returned") /\ Ev.h \in H /\
-              (ShWake(Ev.h) \/ (Ev.h \in ctxExp /\ ShCtx(Ev.h)) \/ ShClosePC(Ev.h))
+              (ShWake(Ev.h) \/ (Ev.h \in ctxExp /\ Ev.h \notin plain /\ ShCtx(Ev.h)) \/ ShClosePC(Ev.h))
+  \/ /\ DeadlinesMayFire                                  \* time: the deadline has come, the read reports it
+     /\ \/ Is("conn.read") /\ Ev.res = "timeout" /\ Ev.c \in C /\ TFire(Ev.c)
+        \/ Is("pc.read") /\ Ev.res = "timeout" /\ TFirePC
+        \/ Loose /\ Is("s.isstarted") /\ Ev.p \in P /\ spc[Ev.p] = "read" /\ TFirePC
 
 -----------------------------------------------------------------------------
-TInit == Init /\ l = 1 /\ viol = {} /\ ctxExp = {} /\ fin = FALSE /\ early = {} /\ badCall = {} /\ HWInit /\ TLCSet(3, <<FALSE, {}>>)
+TInit == Init /\ l = 1 /\ viol = {} /\ ctxExp = {} /\ fin = FALSE /\ early = {} /\ badCall = {} /\ plain = {} /\ HWInit /\ TLCSet(3, <<FALSE, {}>>)
 
 Late == IF Is("handler.enter") /\ (IF Ev.c # 0 THEN Ev.c \in C /\ LateEnterC(Ev.c) ELSE Ev.k \in K /\ LateEnterK(Ev.k))
         THEN {"NoHandlerStartAfterShutdownReturned"} ELSE {}
 
 TNext ==
   \/ /\ More /\ Is("reset")                       \* next run: a fresh server
-     /\ ResetAll /\ ctxExp' = {} /\ early' = {} /\ badCall' = {} /\ HW(l) /\ l' = l + 1 /\ UNCHANGED <<viol, fin>>
+     /\ ResetAll /\ ctxExp' = {} /\ early' = {} /\ badCall' = {} /\ plain' = {} /\ HW(l) /\ l' = l + 1 /\ UNCHANGED <<viol, fin>>
   \/ /\ More /\ Is("start.call")                  \* v = 1: a call that cannot succeed (ListenAndServe, unusable Net / address)
      /\ badCall' = IF Ev.v = 1 THEN badCall \cup {Ev.p} ELSE badCall
-     /\ Same /\ HW(l) /\ l' = l + 1 /\ UNCHANGED <<viol, ctxExp, fin, early>>
-  \/ /\ More /\ Is("ctx.expire")
-     /\ ctxExp' = ctxExp \cup {Ev.h} /\ Same /\ HW(l) /\ l' = l + 1 /\ UNCHANGED <<viol, fin, early, badCall>>
+     /\ Same /\ HW(l) /\ l' = l + 1 /\ UNCHANGED <<viol, ctxExp, fin, early, plain>>
+  \/ /\ More /\ Is("shutdown.call")             \* v = 1: Shutdown(), no context
+     /\ plain' = IF Ev.v = 1 THEN plain \cup {Ev.h} ELSE plain
+     /\ Same /\ HW(l) /\ l' = l + 1 /\ UNCHANGED <<viol, ctxExp, fin, early, badCall>>
+  \/ /\ More /\ Is("time.elapse")               \* wall time passed; the server's state does not depend on it
+     /\ Same /\ HW(l) /\ l' = l + 1 /\ UNCHANGED <<viol, ctxExp, fin, early, badCall, plain>>
+  \/ /\ More /\ Is("ctx.expire") /\ Ev.h \notin plain
+     /\ ctxExp' = ctxExp \cup {Ev.h} /\ Same /\ HW(l) /\ l' = l + 1 /\ UNCHANGED <<viol, fin, early, badCall, plain>>
   \/ /\ More /\ Is("quiescent")                   \* the harness saw every goroutine blocked
      /\ \A h \in H : shpc[h] # "select"            \* (all silent captures taken)
      /\ ~ENABLED ServerFair                        \* an explanation in which the server could still move is refuted
      /\ viol' = viol \cup (IF \E h \in H : shpc[h] = "wait" THEN {"ShutdownTerminates"} ELSE {})
-     /\ Same /\ HW(l) /\ l' = l + 1 /\ UNCHANGED <<ctxExp, fin, early, badCall>>
+     /\ Same /\ HW(l) /\ l' = l + 1 /\ UNCHANGED <<ctxExp, fin, early, badCall, plain>>
   \/ /\ More /\ EventStep
      /\ viol' = viol \cup Broken' \cup Late
-     /\ HW(l) /\ l' = l + 1 /\ UNCHANGED <<ctxExp, fin, early, badCall>>
+     /\ HW(l) /\ l' = l + 1 /\ UNCHANGED <<ctxExp, fin, early, badCall, plain>>
   \/ /\ More /\ Silent
      /\ viol' = viol \cup Broken'
-     /\ UNCHANGED <<l, ctxExp, fin, early, badCall>>
+     /\ UNCHANGED <<l, ctxExp, fin, early, badCall, plain>>
   \/ /\ More /\ \E p \in P :                      \* the close whose effect is seen before its hook
           /\ spc[p] = "drained" /\ gen \notin closed
           /\ Is("shutdown.returned") \/ Is("pc.close") \/ Is("serve.returned") \/ Is("quiescent")
           /\ SCloseChan(p)
           /\ early' = early \cup {p}
      /\ viol' = viol \cup Broken'
-     /\ UNCHANGED <<l, ctxExp, fin, badCall>>
+     /\ UNCHANGED <<l, ctxExp, fin, badCall, plain>>
   \/ /\ More /\ Is("serve.chanclosed") /\ Ev.p \in early
      /\ early' = early \ {Ev.p}
-     /\ Same /\ HW(l) /\ l' = l + 1 /\ UNCHANGED <<viol, ctxExp, fin, badCall>>
+     /\ Same /\ HW(l) /\ l' = l + 1 /\ UNCHANGED <<viol, ctxExp, fin, badCall, plain>>
   \/ /\ ~More /\ ~fin
      /\ TLCSet(3, <<TRUE, IF TLCGet(3)[1] THEN TLCGet(3)[2] \cap viol ELSE viol>>)
-     /\ fin' = TRUE /\ Same /\ UNCHANGED <<l, viol, ctxExp, early, badCall>>
+     /\ fin' = TRUE /\ Same /\ UNCHANGED <<l, viol, ctxExp, early, badCall, plain>>
 
 Done == /\ PrintT("VP:inv=" \o ToJson(TLCGet(3)[2]))
         /\ Accepted
